@@ -226,6 +226,13 @@ func (o *LogDirReader) loopWithError(ctx context.Context) error {
 
 			if done.filePath == mainLogPath {
 				mainLog.setOffset(done.numBytesRead)
+
+				// Remember how much of the live log exists already.
+				// Otherwise a truncation that happens before the first
+				// write event goes unnoticed (the size cannot drop
+				// below zero), the offset stays beyond the end of the
+				// file, and lines written afterwards are skipped.
+				mainLog.lastSz = done.numBytesRead
 			}
 
 			if initFileIndex > len(o.initFileNames)-1 {
